@@ -319,8 +319,17 @@ impl Indexable for ast::If {
     type Output = ();
     fn index(&self, ctx: &mut IndexCtx) -> Option<Self::Output> {
         self.condition()?.index(ctx);
-        self.then_body()?.index(ctx);
-        self.else_body()?.index(ctx);
+
+        // what a branch declares ends with the branch
+        let then_body = self.then_body()?;
+        ctx.scopes.push(ScopeKind::Block);
+        then_body.index(ctx);
+        ctx.scopes.pop();
+
+        let else_body = self.else_body()?;
+        ctx.scopes.push(ScopeKind::Block);
+        else_body.index(ctx);
+        ctx.scopes.pop();
         None
     }
 }
@@ -329,7 +338,12 @@ impl Indexable for ast::Let {
     type Output = ();
     fn index(&self, ctx: &mut IndexCtx) -> Option<Self::Output> {
         self.let_list()?.index(ctx);
-        self.statement_list()?.index(ctx);
+
+        // what the body declares ends with the body
+        let body = self.statement_list()?;
+        ctx.scopes.push(ScopeKind::Block);
+        body.index(ctx);
+        ctx.scopes.pop();
         None
     }
 }
